@@ -10,6 +10,7 @@
 #include <functional>
 #include <algorithm>
 #include <unistd.h>
+#include <fcntl.h>
 #include <sys/stat.h>
 
 #ifndef VOL_CHECK
@@ -338,8 +339,10 @@ void build(Ctx& ctx)
 		gSets.push_back(s);
 	}
 #if VOL_CHECK == 1
+	gExtras.push_back({ 1000 });   // first: the longest case (about a second: 2 GiB of zeros copied between tmpfs files)
 	for (int k = 0; k < 14; ++k) gExtras.push_back({ k });
 #else
+	gExtras.push_back({ 1000 });
 	for (int k = 0; k < (ctx.thorough ? 64 : 16); ++k) gExtras.push_back({ k });
 #endif
 }
@@ -412,9 +415,12 @@ void conformingCase(Ctx& ctx, int k, Scenario& sc)
 			for (uint32_t j = 0; j < sz; ++j) payload[j] = mc::contentByte(uint32_t(ci * 4 + i), j);
 			if (m.kind == 0x103) {
 				std::vector<ref::LzhToken> toks; for (auto b : payload) toks.push_back(ref::Lit(b));
-				toks.push_back(ref::Match(3 + i, 1 + i));
+				// every other packed member consists of many distinct literals and no match: its stored form is longer than what it unpacks to
+				if ((ci + std::size_t(i)) % 2 == 0) toks.push_back(ref::Match(3 + i, 1 + i));
+				else for (int j = 0; j < 64; ++j) toks.push_back(ref::Lit(uint8_t(0x80 + 3 * j)));
 				m.stored = ref::lzhEncode(toks);
 				auto d = ref::lzhDecode(m.stored.data(), m.stored.size());
+				if (m.stored.size() > d.out.size()) ctx.count("conforming/lzh-members-stored-longer-than-unpacked");
 				plain.push_back(d.out); m.overrideIndexSize = true; m.indexSize = uint32_t(d.out.size());
 			}
 			else { m.stored = payload; plain.push_back(payload); }
@@ -472,6 +478,65 @@ void conformingCase(Ctx& ctx, int k, Scenario& sc)
 
 std::size_t nChunks() { return (gSets.size() + kChunk - 1) / kChunk; }
 
+// An archive larger than 2 GiB: the second member's block lies beyond offset 2^31 (every offset field is an unsigned 32-bit number).
+//  C02: written sparse by the reference encoder (header and first block header, a hole, the second block), nothing is copied;
+//  C01: really packed by the library from a sparse 2 GiB input.
+void beyond2GiB(Ctx& ctx, Scenario& sc)
+{
+	mc::removeTree(sc.root); mc::makeDir(sc.root);
+	if (::chdir(sc.root.c_str()) != 0) std::abort();
+	const uint64_t N = 0x7FFFFFF0ull;
+	std::vector<uint8_t> small; for (int i = 0; i < 43; ++i) small.push_back(uint8_t('a' + i % 26));
+	std::string key = "members a_big.bin (2147483632 zero bytes) and b_small.txt (43 bytes)";
+	ctx.sub(key);
+#if VOL_CHECK == 1
+	{ int fd = ::open("a_big.bin", O_CREAT | O_TRUNC | O_WRONLY, 0644); if (fd < 0 || ::ftruncate(fd, off_t(N)) != 0) std::abort(); ::close(fd); }
+	mc::writeFile("b_small.txt", small);
+	auto oc = mc::guarded([&] { Archive::VolFile::CreateArchive("big.vol", { "b_small.txt", "a_big.bin" }); });
+	ctx.transition();
+	if (oc.cls != 'R') { ctx.violation("C01/beyond-2GiB/create-refused", key, oc.what); return; }
+#else
+	std::vector<ref::VolMember> ms(2); ms[0].name = "a_big.bin"; ms[1].name = "b_small.txt"; ms[1].stored = small;
+	auto img = ref::encodeVol(ms);
+	auto fieldAt = [&](const std::string& n) { for (auto& f : img.fields) if (f.name == n) return f.offset; std::abort(); };
+	mc::set32(img.bytes, fieldAt("entry0.size"), uint32_t(N));
+	mc::set32(img.bytes, fieldAt("block0.length+flag"), uint32_t(N) | 0x80000000u);
+	uint64_t second = uint64_t(img.blockOffsets[0]) + 8 + N;
+	mc::set32(img.bytes, fieldAt("entry1.blockOffset"), uint32_t(second));
+	{
+		int fd = ::open("big.vol", O_CREAT | O_TRUNC | O_WRONLY, 0644); if (fd < 0) std::abort();
+		std::size_t head = img.blockOffsets[0] + 8;
+		if (::pwrite(fd, img.bytes.data(), head, 0) != ssize_t(head)) std::abort();
+		if (::pwrite(fd, img.bytes.data() + img.blockOffsets[1], img.bytes.size() - img.blockOffsets[1], off_t(second)) != ssize_t(img.bytes.size() - img.blockOffsets[1])) std::abort();
+		::close(fd);
+	}
+#endif
+	auto o = mc::guarded([&] {
+		Archive::VolFile v("big.vol");
+		if (v.GetCount() != 2 || v.GetName(0) != "a_big.bin" || v.GetName(1) != "b_small.txt") throw std::runtime_error("listing differs");
+		if (v.GetSize(0) != N || v.GetSize(1) != small.size()) throw std::runtime_error("sizes " + std::to_string(v.GetSize(0)) + ", " + std::to_string(v.GetSize(1)));
+		for (int byName = 0; byName < 2; ++byName) {
+			Archive::ArchiveFile& av = v;
+			auto st = byName ? av.OpenStream(std::string("B_SMALL.TXT")) : v.OpenStream(1);
+			ctx.transition();
+			std::vector<uint8_t> got(std::size_t(st->Length()));
+			st->Read(got.data(), got.size());
+			if (got != small) throw std::runtime_error("member stream of the member stored beyond 2 GiB differs");
+		}
+		v.ExtractFile(1, "x_small.txt");
+		ctx.transition();
+		if (mc::readFile("x_small.txt") != small) throw std::runtime_error("extraction of the member stored beyond 2 GiB differs");
+		auto big = v.OpenStream(0);
+		if (big->Length() != N) throw std::runtime_error("Length of the 2 GiB member stream " + std::to_string(big->Length()));
+		uint8_t b[8] = { 1, 1, 1, 1, 1, 1, 1, 1 };
+		big->Seek(N - 8); big->Read(b, 8);
+		for (auto x : b) if (x) throw std::runtime_error("tail of the 2 GiB member differs");
+	});
+	if (o.cls != 'R') ctx.violation(std::string(kId) + "/beyond-2GiB/reopen-or-extract-throws", key, o.what);
+	ctx.count("beyond-2GiB/archives");
+	ctx.state(); ctx.trace();
+}
+
 void runCase(std::size_t i, Ctx& ctx)
 {
 	Scenario sc{ ctx, ctx.scratch() + "/vol" };
@@ -484,6 +549,7 @@ void runCase(std::size_t i, Ctx& ctx)
 	}
 	else {
 		int k = gExtras[i - nChunks()].kind;
+		if (k == 1000) { beyond2GiB(ctx, sc); if (::chdir("/") != 0) std::abort(); mc::removeTree(sc.root); return; }
 #if VOL_CHECK == 1
 		refusalCase(ctx, k, sc);
 		if (k == 10) ctx.sample("refusal: CreateArchive(./d1/x.vol, {d1/x.vol, a}) must throw and leave d1/x.vol untouched");
@@ -507,5 +573,6 @@ int main(int argc, char** argv)
 	def.run = runCase;
 	def.describe = [](std::size_t i) { return i < nChunks() ? "file sets " + std::to_string(i * kChunk) + ".." : "extra case " + std::to_string(i - nChunks()); };
 	def.caseTimeoutS = 300;
+	def.fsizeLimit = std::size_t(3) << 30;   // the archive beyond 2 GiB
 	return mc::Main(argc, argv, def);
 }
